@@ -453,23 +453,22 @@ def PATH_TRACE_CAP : Nat := 128
 
 def clockIdBytes (c : Nat) : List UInt8 := beBytes c 8
 
-/-- the forwarding loop of `send_announce`: `next_if_smaller(margin)` returns the head of the queue
-when its size is ≤ margin (`loose`, the documented contract: "unless it is larger than
-max_size", and what the daemon's forwarder does) or < margin (a strict provider).
-Returns (bytes appended, remaining queue). `assert!(tlv.size() < tlv_margin)` is the `.always` panic. -/
+/-- does the head of the queue fit? `next_if_smaller(margin)` of a strict provider returns it when its size is
+< margin, the documented contract ("unless it is larger than max_size") and the daemon's forwarder when ≤ margin
+(`loose`). Since the `fix:` commit a TLV that fills the room exactly is taken (before: `assert!` panic). -/
+def fwdFits (loose : Bool) (size margin : Nat) : Bool := size < margin || (loose && size = margin)
+
+/-- the forwarding loop of `send_announce`. Returns (bytes appended, remaining queue). -/
 def fwdLoop (parent : PortId) (pathTraceEnabled : Bool) (loose : Bool) : Nat → List FwdTlv → Nat → List UInt8 →
-    R (List UInt8 × List FwdTlv)
-  | 0, q, _, acc => .ok (acc, q)
-  | fuel + 1, q, margin, acc =>
-    match q with
-    | [] => .ok (acc, [])
-    | t :: rest =>
-      if t.tlv.wireSize < margin ∨ (loose ∧ t.tlv.wireSize = margin) then
-        if ¬ (t.tlv.wireSize < margin) then .error .always
-        else if parent ≠ t.sender then fwdLoop parent pathTraceEnabled loose fuel rest margin acc
-        else if pathTraceEnabled ∧ t.tlv.ty = TLV_PATH_TRACE then fwdLoop parent pathTraceEnabled loose fuel rest margin acc
-        else fwdLoop parent pathTraceEnabled loose fuel rest (margin - t.tlv.wireSize) (acc ++ t.tlv.bytes)
-      else .ok (acc, q)
+    List UInt8 × List FwdTlv
+  | 0, q, _, acc => (acc, q)
+  | _ + 1, [], _, acc => (acc, [])
+  | fuel + 1, t :: rest, margin, acc =>
+    if fwdFits loose t.tlv.wireSize margin then
+      if parent ≠ t.sender then fwdLoop parent pathTraceEnabled loose fuel rest margin acc
+      else if pathTraceEnabled ∧ t.tlv.ty = TLV_PATH_TRACE then fwdLoop parent pathTraceEnabled loose fuel rest margin acc
+      else fwdLoop parent pathTraceEnabled loose fuel rest (margin - t.tlv.wireSize) (acc ++ t.tlv.bytes)
+    else (acc, t :: rest)
 
 /-- the path trace TLV of an emitted Announce (own identity appended to the stored path) and the room left after it -/
 def announcePathTlv (s : InstState) (margin0 : Nat) : List UInt8 × Nat :=
@@ -489,13 +488,18 @@ def announceMargin (s : InstState) (p : Port) : Nat := MAX_DATA_LEN - (msgAnnoun
 def Port.announceMsg (p : Port) (s : InstState) (fw : List UInt8) : Msg :=
   { msgAnnounce s p.id p.annSeq p.cfg.minorVersion with suffix := (announcePathTlv s (announceMargin s p)).1 ++ fw }
 
+/-- what the forwarding loop of `send_announce` does with the host's queue `q` -/
+def Port.announceFwd (p : Port) (s : InstState) (q : List FwdTlv) (loose : Bool) : List UInt8 × List FwdTlv :=
+  fwdLoop s.parent.parentPort s.pathEnable loose (q.length + 1) q (announcePathTlv s (announceMargin s p)).2 []
+
 /-- `send_announce` (announce timer); `q` is the host's forwarded-TLV queue for this port -/
 def Port.sendAnnounce (p : Port) (s : InstState) (q : List FwdTlv) (loose : Bool := true) :
     R (Port × List Out × List FwdTlv) :=
   if p.st = .master then
-    (fwdLoop s.parent.parentPort s.pathEnable loose (q.length + 1) q (announcePathTlv s (announceMargin s p)).2 []).map fun r =>
-      ({ p with annSeq := nextSeq p.annSeq },
-       [.reset .announce (.exact (intervalNs p.cfg.announceLog)), .sendGeneral (encode (p.announceMsg s r.1)) false], r.2)
+    .ok ({ p with annSeq := nextSeq p.annSeq },
+         [.reset .announce (.exact (intervalNs p.cfg.announceLog)),
+          .sendGeneral (encode (p.announceMsg s (p.announceFwd s q loose).1)) false],
+         (p.announceFwd s q loose).2)
   else .ok (p, [], q)
 
 def Port.handleDelayReq (p : Port) (h : Header) (ts : Nat) : R (Port × List Out) :=
@@ -536,21 +540,32 @@ def InstState.applyParent (s : InstState) (a : Ann) : R InstState := do
                            gmP1 := a.body.p1, gmP2 := a.body.p2 },
                tp := annTimeProps a }
 
+/-- the PATH_TRACE TLV `handle_announce` looks at (path trace option on) -/
+def pathTlvOf (s : InstState) (m : Msg) : Option Tlv :=
+  if s.pathEnable then (tlvs m.suffix).find? (fun t => t.ty = TLV_PATH_TRACE) else none
+
+/-- "clock loop detected": the path already contains the own identity -/
+def loopsBack (s : InstState) (pt : Option Tlv) : Bool :=
+  match pt with
+  | some t => (pathOf t.value).contains s.dflt.clockIdentity
+  | none => false
+
+/-- store the received path (`ArrayVec` of 128 identities: a longer one panics) -/
+def storePath (s1 : InstState) (pt : Option Tlv) : R InstState :=
+  match pt with
+  | some t => if (pathOf t.value).length > PATH_TRACE_CAP then .error .always else .ok { s1 with pathTrace := pathOf t.value }
+  | none => .ok s1
+
 /-- the data set half of `handle_announce`: a Slave port that hears its parent applies table 33 and the
-path trace list; the Bool is "clock loop detected" -/
+path trace list; the Bool is "clock loop detected" — since the `fix:` commit the loop check comes first and a
+looping Announce leaves the data sets alone -/
 def Port.announceUpdate (p : Port) (s : InstState) (m : Msg) (a : Ann) : R (InstState × Bool) :=
   if p.st.isSlave ∧ a.hdr.src = s.parent.parentPort then
-    match s.applyParent a with
-    | .error e => .error e
-    | .ok s1 =>
-      if s1.pathEnable then
-        match (tlvs m.suffix).find? (fun t => t.ty = TLV_PATH_TRACE) with
-        | some t =>
-          if (pathOf t.value).contains s1.dflt.clockIdentity then .ok (s1, true)
-          else if (pathOf t.value).length > PATH_TRACE_CAP then .error .always
-          else .ok ({ s1 with pathTrace := pathOf t.value }, false)
-        | none => .ok (s1, false)
-      else .ok (s1, false)
+    if loopsBack s (pathTlvOf s m) then .ok (s, true)
+    else
+      match s.applyParent a with
+      | .error e => .error e
+      | .ok s1 => (storePath s1 (pathTlvOf s m)).map (fun s2 => (s2, false))
   else .ok (s, false)
 
 /-- the registration half: foreign master list, multiport check, receipt timer, TLV forwarding -/
